@@ -240,3 +240,19 @@ def eps_for(*things):
             if a.dtype.kind in 'fc':
                 e = max(e, float(np.finfo(a.dtype).eps))
     return e
+
+
+def relayout(x, lay):
+    """Same element, same values, wrapping an array of another memory layout
+    ('C', 'F', 'strided'; inside guard zones, see core.guarded_layout)."""
+    from .core import guarded_layout
+    if lay == 'C' or not is_elem(x):
+        return x
+    o = odl()
+    sp = x.space
+    if isinstance(sp, o.ProductSpace):
+        return sp.element([relayout(p, lay) for p in x.parts])
+    arrs = elem_arrays(x)
+    if len(arrs) != 1 or arrs[0].ndim == 0 or arrs[0].size == 0:
+        return x
+    return sp.element(guarded_layout(arrs[0], lay))
